@@ -44,7 +44,7 @@ theorem C03_runtime_after_registered_partial (s : State) (ph : Phase) (ho : s.or
     (s.initFlow.extRegistered.isOpen = true → s.initFlow.extRegistered.canceled = false → s.regOn = true →
         s.initFlow.extRegistered.arrived = s.initFlow.extRegistered.count ∧
         ∃ s', orchResume s = some s' ∧ s'.orch = .iAwaitRestoreReady ph ∧ s'.rt = some .started ∧
-          s'.out = s.out ++ [s!"sup exec:{({ name := "runtime", gen := s.gen, chanCreated := true } : Proc).full}"]) := by
+          s'.out = s.out ++ [.line s!"sup exec:{({ name := "runtime", gen := s.gen, chanCreated := true } : Proc).full}"]) := by
   refine ⟨?_, ?_, ?_⟩
   · intro h; simp [orchResume, ho, h]
   · intro h hc; simp [orchResume, ho, h, hc]
@@ -120,9 +120,9 @@ example :
     let s3 := step 0 s2 (.register "b" [] "")
     let s4 := step 0 (step 0 s3 .rtNext) (.agNext "a" "")
     let s5 := step 0 s4 (.agNext "b" "")
-    s1.out = ["ev initStart:init", "sup exec:extension-a-1", "sup exec:extension-b-1"] ∧
-    s2.out = ["a.register=200,meta=ok"] ∧ s3.out = ["b.register=200,meta=ok", "sup exec:runtime-1"] ∧
-    s4.out = [] ∧ s5.out.contains "rt.next=200,id#1,body=h,arn=ok,ctx=ctx0" = true ∧
-    s5.out.contains "a.next=200,INVOKE,id#1,arn=ok,trace" = true := by decide
+    s1.outs = ["ev initStart:init", "sup exec:extension-a-1", "sup exec:extension-b-1"] ∧
+    s2.outs = ["a.register=200,meta=ok"] ∧ s3.outs = ["b.register=200,meta=ok", "sup exec:runtime-1"] ∧
+    s4.outs = [] ∧ s5.outs.contains "rt.next=200,id#1,body=h,arn=ok,ctx=ctx0" = true ∧
+    s5.outs.contains "a.next=200,INVOKE,id#1,arn=ok,trace" = true := by decide
 
 end Rie.Props.C03
